@@ -51,13 +51,14 @@ def classify(rec):
 class Rig:
     """Fake port + board + recording wrappers on the real primitives."""
 
-    def __init__(self, version="2.8.1", eol="\r\n"):
+    def __init__(self, version="2.8.1", eol="\r\n", timeout=1.0):
         from plotink import ebb_serial
         self.mod = ebb_serial
         self.log = serialsim.EventLog()
         self.board = serialsim.Legacy2xBoard(version=version, eol=eol)
         self.plan = serialsim.FaultPlan()
         self.port = serialsim.FakePort(self.board, self.log, self.plan)
+        self.port.timeout = timeout             # how the caller happened to open the port
         self.frames = []
         self.depth = 0
         self.saved = {}
@@ -214,7 +215,7 @@ def bad_fault(rng, n_reads_hint):
 def run_calls(ctx, classes, scen):
     """scen: {"eol", "version", "calls": [{"p": primitive|helper, "text"/"args", "faults", "conforming"}]}"""
     findings = []
-    with Rig(version=scen.get("version", "2.8.1"), eol=scen.get("eol", "\r\n")) as rig:
+    with Rig(version=scen.get("version", "2.8.1"), eol=scen.get("eol", "\r\n"), timeout=scen.get("timeout", 1.0)) as rig:
         from plotink import ebb_motion, ebb_serial
         for i, call in enumerate(scen["calls"]):
             rig.frames = []
@@ -288,10 +289,13 @@ def history(ctx, rng, with_faults):
             call["classes"] = [cls] + dcls
             call["conforming"] = True
         calls.append(call)
-    scen = {"eol": rng.choice(["\r\n", "\r\n", "\n", "\n\r"]), "calls": calls}
+    scen = {"eol": rng.choice(["\r\n", "\r\n", "\n", "\n\r"]), "calls": calls,
+            "timeout": rng.choice([1.0, 1.0, None, 0, 0.05, 2.0, 5, 30.0, 120])}
     ctx.sample({"eol": scen["eol"], "calls": [{k: v for k, v in c.items() if k != "classes"} for c in calls[:3]]},
                tag="history with faults" if with_faults else "delayed conforming history", per_tag=1)
-    run_calls(ctx, ["history with faults" if with_faults else "delayed conforming history"], scen)
+    run_calls(ctx, ["history with faults" if with_faults else "delayed conforming history",
+                    "port opened with timeout %s" % ("None" if scen["timeout"] is None else "<= 1 s" if scen["timeout"] <= 1
+                                                      else "> 1 s")], scen)
 
 
 def systematic(ctx, rng):
@@ -312,7 +316,8 @@ def systematic(ctx, rng):
             conforming = label in ("one empty read first", "100 empty reads first") and fault["at"] < n_reads
             follow = {"p": "query", "text": "QN\r", "faults": [], "conforming": True, "classes": ["follow-up request"]}
             scen = {"calls": [{"p": prim, "text": text, "faults": [fault], "conforming": conforming,
-                               "classes": ["fault:" + label]}, follow]}
+                               "classes": ["fault:" + label]}, follow],
+                    "timeout": rng.choice([1.0, None, 0, 0.05, 2.0, 5, 30.0])}
             run_calls(ctx, ["systematic"], scen)
             seen.add("%s|%s|%s@%d" % (text.strip(), label, fault["op"], fault["at"]))
 
@@ -357,7 +362,8 @@ def run(ctx):
     seen = ctx.extra.pop("_triples", set())
     ctx.extra["distinct_request_fault_position_triples"] = len(seen)
     ctx.extra["request_fault_position_examples"] = sorted(seen)[:10]
-    for cls in ("delayed conforming history", "history with faults", "helpers under faults", "no port", "no text",
+    for cls in ("port opened with timeout None", "port opened with timeout <= 1 s", "port opened with timeout > 1 s",
+                "delayed conforming history", "history with faults", "helpers under faults", "no port", "no text",
                 "request:command", "request:command longer than 64 bytes", "request:OK-terminated query", "request:no-OK query",
                 "delay before data/OK line:0", "delay before data/OK line:1", "delay before data/OK line:100",
                 "delay before data/OK line:2..99", "delay before trailing OK:0", "delay before trailing OK:100",
